@@ -72,7 +72,7 @@ theorem ef_has_rank_eq (e : EF) : GenFn.EliasFano.has_rank e = e.hasRank := rfl
 /-! ## `select`, `delta` -/
 
 /-- the position of the `k`-th one of the high bits, for `k < len` -/
-theorem high_one (c : Cfg) (e : EF) (ok : EFOk c e) (k : Nat) (hk : k < e.len) :
+theorem ef_high_one (c : Cfg) (e : EF) (ok : EFOk c e) (k : Nat) (hk : k < e.len) :
     ∃ p, GenFn.DArray.select1 c e.high k = .ok (some p) ∧ e.high.select1 c k = .ok (some p) ∧
       IsKth e.high.bv.bitAt e.high.bv.len k p ∧ k ≤ p := by
   have hk' : k < cnt e.high.bv.bitAt e.high.bv.len := by rw [← ok.numOnes]; exact hk
@@ -82,7 +82,7 @@ theorem high_one (c : Cfg) (e : EF) (ok : EFOk c e) (k : Nat) (hk : k < e.len) :
   · rw [ok.select1 k, hp]
   · rw [← hkth.2.2]; exact cnt_le _ _
 
-theorem chunk_fits (c : Cfg) (e : EF) (ok : EFOk c e) (k : Nat) (hk : k < e.len) :
+theorem ef_chunk_fits (c : Cfg) (e : EF) (ok : EFOk c e) (k : Nat) (hk : k < e.len) :
     k * e.lowLen + e.lowLen < 2^64 := by
   have h1 : (k + 1) * e.lowLen ≤ e.len * e.lowLen := Nat.mul_le_mul_right _ hk
   rw [Nat.add_mul, Nat.one_mul] at h1
@@ -98,8 +98,8 @@ theorem ef_select_eq (c : Cfg) (e : EF) (ok : EFOk c e) (k : Nat) :
   · rw [if_pos hk, if_pos hk]
   · rw [if_neg hk, if_neg hk]
     have hk' : k < e.len := Nat.lt_of_not_le hk
-    obtain ⟨p, hg, hm, _, hkp⟩ := high_one c e ok k hk'
-    have hf := chunk_fits c e ok k hk'
+    obtain ⟨p, hg, hm, _, hkp⟩ := ef_high_one c e ok k hk'
+    have hf := ef_chunk_fits c e ok k hk'
     rw [hg, hm, bok, EFQ.unwrapO_some, bok]
     show (csub c p k).bind _ = _
     rw [csub_ok c hkp, bok, cshl_ok c ok.llt, bok, cmul_ok c (by omega), bok,
@@ -143,15 +143,15 @@ theorem ef_delta_eq (c : Cfg) (e : EF) (ok : EFOk c e) (k : Nat) :
   · rw [if_pos hk, if_pos hk]
   · rw [if_neg hk, if_neg hk]
     have hk' : k < e.len := Nat.lt_of_not_le hk
-    obtain ⟨p, hg, hm, _, hkp⟩ := high_one c e ok k hk'
-    have hf := chunk_fits c e ok k hk'
+    obtain ⟨p, hg, hm, _, hkp⟩ := ef_high_one c e ok k hk'
+    have hf := ef_chunk_fits c e ok k hk'
     rw [hg, hm, bok, EFQ.unwrapO_some, bok]
     show (cmul c k e.lowLen).bind _ = _
     rw [cmul_ok c (by omega), bok, get_bits_eq_of c _ _ _ (.inl hf), ef_unwrap_bind_eq]
     refine ef_bind_congr fun lv => ?_
     by_cases h0 : k ≠ 0
     · rw [if_pos h0, if_pos h0]
-      have hf1 := chunk_fits c e ok (k - 1) (by omega)
+      have hf1 := ef_chunk_fits c e ok (k - 1) (by omega)
       refine ef_op_step fun t3 => ?_
       rw [da_bit_vector_eq, predecessor1_eq c e.high.bv ok.wf.inv (by have := ok.wf.len; omega)]
       refine ef_unwrap_step fun t5 => ?_
@@ -169,7 +169,7 @@ theorem ef_delta_eq (c : Cfg) (e : EF) (ok : EFOk c e) (k : Nat) :
 
 /-! ## `rank` -/
 
-/-- the condition of the backward scan of `rank` (`rank_unfold` ties it to the generated text) -/
+/-- the condition of the backward scan of `rank` (`ef_rank_unfold` ties it to the generated text) -/
 def efRankCond (c : Cfg) (e : EF) (l_pos : Nat) (st : Nat × Nat) : R Bool :=
   (if (decide (st.2 > 0)) then
     (csub c st.2 1).bind fun t3 =>
@@ -190,7 +190,7 @@ def efRankBody (c : Cfg) (st : Nat × Nat) : R (Nat × Nat) :=
   (csub c st.2 1).bind fun h_pos3 =>
   .ok (rank3, h_pos3)
 
-theorem rank_unfold (c : Cfg) (e : EF) (pos : Nat) :
+theorem ef_rank_unfold (c : Cfg) (e : EF) (pos : Nat) :
     GenFn.EliasFano.rank c e pos =
       if e.univ < pos then .ok none
       else if e.univ = pos then .ok (some e.len)
@@ -250,7 +250,7 @@ theorem ef_rank_loop (c : Cfg) (e : EF) (ok : EFOk c e) (lPos : Nat) :
           have h2 := ok.numOnes
           show rank ≤ e.high.numOnes
           omega
-        have hf := chunk_fits c e ok (rank - 1) (by omega)
+        have hf := ef_chunk_fits c e ok (rank - 1) (by omega)
         rw [if_pos rfl, csub_ok c (by omega : 1 ≤ rank), bok, cmul_ok c (by omega), bok,
           get_bits_eq_of c _ _ _ (.inl hf)]
         simp only [Bool.not_true, Bool.false_eq_true, if_false, hr0]
@@ -268,7 +268,7 @@ theorem ef_rank_loop (c : Cfg) (e : EF) (ok : EFOk c e) (lPos : Nat) :
 /-- **`EliasFano::rank`** -/
 theorem ef_rank_eq (c : Cfg) (e : EF) (ok : EFOk c e) (pos : Nat) :
     GenFn.EliasFano.rank c e pos = EF.rank c e pos := by
-  rw [rank_unfold]
+  rw [ef_rank_unfold]
   unfold EF.rank
   by_cases h1 : e.univ < pos
   · rw [if_pos h1, if_pos h1]
@@ -356,11 +356,11 @@ theorem efok_of_setting (c : Cfg) (e : EF) (b : EFB) (xs : List Nat) (S : EFQ.Se
 theorem ef_fromBits_toList (b : BV) (h : b.Inv) : BV.fromBits b.toList = b :=
   BV.eq_of_toList _ _ (BV.fromBits_spec _).1 h (BV.fromBits_spec _).2
 
-theorem ofBuilder_high (c : Cfg) (b : EFB) (h : b.high.Inv) : (EF.ofBuilder c b).high = DA.build c b.high false false := by
+theorem ef_ofBuilder_high (c : Cfg) (b : EFB) (h : b.high.Inv) : (EF.ofBuilder c b).high = DA.build c b.high false false := by
   show DA.fromBV c (BV.fromBits b.high.toList) = DA.build c b.high false false
   rw [ef_fromBits_toList _ h]; rfl
 
-theorem enableRank_high (c : Cfg) (b : EFB) (h : b.high.Inv) :
+theorem ef_enableRank_high (c : Cfg) (b : EFB) (h : b.high.Inv) :
     ((EF.ofBuilder c b).enableRank c).high = DA.build c b.high false true := by
   show (DA.fromBV c (BV.fromBits b.high.toList)).enableSelect0 c = DA.build c b.high false true
   rw [ef_fromBits_toList _ h]; rfl
@@ -369,14 +369,14 @@ theorem enableRank_high (c : Cfg) (b : EFB) (h : b.high.Inv) :
 theorem efok_ofBuilder (c : Cfg) (b : EFB) (xs : List Nat) (h : EFB.Holds b xs) (hu : b.univ < 2^64)
     (hl : b.high.len < 2^63) (hf : xs.length * b.lowLen < 2^64) : EFOk c (EF.ofBuilder c b) := by
   refine efok_of_setting c _ b xs (EFQ.setting_ofBuilder c b xs h hu (EFQ.high_ofBuilder c b xs h)) ?_ hf
-  rw [ofBuilder_high c b h.hinv]
+  rw [ef_ofBuilder_high c b h.hinv]
   exact build_wf c b.high h.hinv hl false false
 
 /-- `build().enable_rank()` likewise -/
 theorem efok_enableRank (c : Cfg) (b : EFB) (xs : List Nat) (h : EFB.Holds b xs) (hu : b.univ < 2^64)
     (hl : b.high.len < 2^63) (hf : xs.length * b.lowLen < 2^64) : EFOk c ((EF.ofBuilder c b).enableRank c) := by
   refine efok_of_setting c _ b xs (EFQ.setting_enableRank c b xs h hu (EFQ.high_enableRank c b xs h)) ?_ hf
-  rw [enableRank_high c b h.hinv]
+  rw [ef_enableRank_high c b h.hinv]
   exact build_wf c b.high h.hinv hl false true
 
 /-- the generated `enable_rank` on the result of the generated `build` -/
